@@ -121,7 +121,16 @@ check('C13', 'Hypothesis choice tapes decoded into G4 documents whose writer rec
       'Sampling only; structurally different parses are left to C03 and counted as skipped.',
       'DESIGN.md 5/C13')
 
+check('C07', 'Hypothesis choice tapes decoded into G4 documents in reference mode (definitions at drawn placements, re-spelled labels, all reference forms); oracle = tree-derived HTML with a model resolver and the model definition map',
+      'hypothesis-sharded',
+      'Labels get 1-3 definitions (case / whitespace / Unicode-fold variants) placed at block boundaries of the document, block quotes and '
+      'loose list items, before or after their uses; uses appear as full, collapsed and shortcut links and images in paragraphs, headings '
+      'and table cells, plus undefined labels. The rendered HTML must equal the HTML written from the tree by a model resolver (first '
+      'definition in document order), and Document.footnotes must equal the model map.',
+      'Sampling only; definitions in tight list items are not generated.',
+      'DESIGN.md 5/C07')
+
 _PENDING = 'check not built yet in this revision (work in progress; technique applies, see DESIGN.md section 5)'
-for _p in ['C07', 'C09', 'C10',
+for _p in ['C09', 'C10',
            'C19']:
     NOT_YET[_p] = _PENDING
